@@ -11,6 +11,7 @@ import Driver.Forwarder
 import Driver.MuxPool
 import Driver.ConnMap
 import Driver.Gossip
+import Driver.Registry
 /-
 Model driver: reads the op lines a harness engine wrote (first line `engine <name>`), runs the
 executable Lean model, prints one observation line per op line.  `/verif/check` diffs this
@@ -34,6 +35,7 @@ inductive St where
   | muxpool (s : Drv.MuxPool.DSt)
   | connmap (s : Option S2S.ConnMap.St)
   | gossip (d : Drv.Gossip.DSt)
+  | registry (d : Drv.Registry.DSt)
 
 def initSt (engine : String) : Option St :=
   match engine with
@@ -52,6 +54,7 @@ def initSt (engine : String) : Option St :=
   | "muxpool-asis" => some (.muxpool { d := S2S.MuxPool.Defects.asIs })
   | "connmap" => some (.connmap Option.none)
   | "gossip" => some (.gossip {})
+  | "registry" => some (.registry {})
   | _ => Option.none
 
 def stepSt (st : St) (line : String) : St × String :=
@@ -71,6 +74,7 @@ def stepSt (st : St) (line : String) : St × String :=
   | .muxpool s => let (s', o) := Drv.MuxPool.step s line; (.muxpool s', o)
   | .connmap s => let (s', o) := Drv.ConnMap.step s line; (.connmap s', o)
   | .gossip d => let (d', o) := Drv.Gossip.step d line; (.gossip d', o)
+  | .registry d => let (d', o) := Drv.Registry.step d line; (.registry d', o)
 
 partial def loop (h : IO.FS.Stream) (out : IO.FS.Stream) (st : St) : IO Unit := do
   let line ← h.getLine
